@@ -10,7 +10,7 @@ from fractions import Fraction
 
 import numpy as np
 
-from .common import run, absval
+from .common import run, absval, flat
 
 PROPERTY = "C14"
 LEVEL = "other"
@@ -584,6 +584,7 @@ def _vector(c, inst, n, tol_arg, tol):
         lb = c.array([a for a, w in brs])
         ub = c.array([a + w for a, w in brs])
     with_interval = inst.get("interval", True)
+    before = None if shared else (list(flat(c, lb)), list(flat(c, ub)))
     if with_interval:
         st, r = run(opt.brentsrootvec, list(fns), [lb, ub], tol_arg, False, True)
     else:
@@ -596,6 +597,11 @@ def _vector(c, inst, n, tol_arg, tol):
     else:
         xv, okv = r
         iav = ibv = None
+    if before is not None:
+        # the bracket arrays belong to the caller (who may search the same brackets again): they come back as they were handed over
+        after = (list(flat(c, lb)), list(flat(c, ub)))
+        same = all((u is v) if c.symbolic else (u == v) for u, v in zip(before[0] + before[1], after[0] + after[1]))
+        c.check("c14.vec.callers_bracket_arrays_are_not_modified", same)
     shape_ok = tuple(np.shape(xv)) == (n,) and tuple(np.shape(okv)) == (n,)
     c.check("c14.vec.result_shape", shape_ok, info=dict(x=repr(np.shape(xv)), ok=repr(np.shape(okv))))
     if not shape_ok:
